@@ -14,7 +14,9 @@ strategy, the channel and the aggregator, which is where the property's rational
  R5 per-status counter effect table of the aggregator (= C05.R1/R2, imported): none invented, dropped or counted twice.
  R6 publish-once pairing (= C08.R3, C20.O4 imported): one publication and one advance per round, one handler call per publication; only
     complete_probe turns Awaited into Complete and only for the first genuine response (= C03.R2/R4, imported); what counts as genuine is
-    Strategy::validate's 72-cell truth table (= C03.R5 / R5v, imported).
+    Strategy::validate's 72-cell truth table (= C03.R5 / R5v, imported); every probe of every published round reaches the counters (= C05.R8, imported).
+ R7 configuration plumbing of the channel: ChannelConfig takes every field from the tracer field of the same name and Channel from the ChannelConfig
+    field of the same name, unchanged (a TCP handshake is awaited for tcp_connect_timeout, not for the read timeout).
 """
 import re
 
